@@ -14,7 +14,7 @@ def _inputs(c):
 def _ok(c):
     o = c.get("obs") or {}
     if c["k"] == "ws":
-        return bool(o.get("cancelled")) and not o.get("panic")
+        return bool(o.get("cancelled")) and bool(o.get("closed")) and not o.get("panic")
     return (bool(o.get("returned")) and o.get("leak") == 0 and o.get("reg") == 0 and o.get("gconn") == 0
             and o.get("greq") == 0 and not o.get("panic") and (bool(o.get("fed")) or c.get("peer") == "stall"))
 
@@ -52,7 +52,7 @@ class C13(Prop):
         "(every select with its cases, bare send/receive, range over a channel, WaitGroup.Wait, helper calls, channel "
         "capacities, defers, go statements, close calls) plus the harness runs",
         "goroutine accounting in the harness: runtime.Stack(all) filtered to stacks mentioning the mocrelay module, "
-        "baseline taken before the session, 500 ms of retries before a leak is declared; 2 s bound for 'returns promptly'",
+        "baseline taken before the session, 1 s of retries before a leak is declared; 3 s bound for 'returns promptly'",
         "coder/websocket, net/http, database/sql, mattn/go-sqlite3, the Prometheus client (Gather is the observation)",
     ]
     assumptions = [
@@ -70,15 +70,19 @@ class C13(Prop):
         "every merge has at least two children (NewMergeHandler panics otherwise)",
     ]
     signatures = {
+        # F5: with ping disabled a positive send timeout is not applied to writes (the connection is
+        # still torn down correctly once the peer is gone)
         "ping_disabled_no_write_deadline": lambda c: c.get("k") == "ws" and int(c.get("ping_ms", 1)) == 0
-        and int(c.get("st_ms", 0)) > 0,
+        and int(c.get("st_ms", 0)) > 0 and not (c.get("obs") or {}).get("cancelled")
+        and bool((c.get("obs") or {}).get("closed")) and not (c.get("obs") or {}).get("panic"),
     }
 
     def to_coq(self, I, c):
         o = c.get("obs") or {}
         pan = cbool(bool(o.get("panic")))
         if c["k"] == "ws":
-            return "(CWs %s %s %s %s)" % (cZ(c["st_ms"]), cZ(c["ping_ms"]), cbool(bool(o.get("cancelled"))), pan)
+            return "(CWs %s %s %s %s %s)" % (cZ(c["st_ms"]), cZ(c["ping_ms"]), cbool(bool(o.get("cancelled"))),
+                                             cbool(bool(o.get("closed"))), pan)
         return "(CSess %s %s %s %s %s %s %s %s %s %s %s %s %s)" % (
             cnat(c["comp"]), cnat(c["mw"]), cnat(len(c.get("hist") or [])), cnat(END.get(c["end"], 0)),
             cnat(PEER.get(c["peer"], 0)), cbool(bool(c.get("settle"))), cbool(bool(o.get("fed"))),
@@ -97,9 +101,9 @@ class C13(Prop):
         return json.dumps(self._shape(c))
 
     def dedup_key(self, c):
-        if c["k"] == "ws":
-            return "ws"
         o = c.get("obs") or {}
+        if c["k"] == "ws":
+            return json.dumps(["ws", bool(o.get("cancelled")), bool(o.get("closed"))])
         return json.dumps([bool(o.get("returned")), o.get("leak", 0) > 0, o.get("reg", 0) > 0, o.get("gconn", 0) != 0,
                            o.get("greq", 0) != 0, bool(o.get("panic"))])
 
